@@ -95,7 +95,7 @@ CHECKS = {
         design_ref="DESIGN.md 3/C04",
     ),
     "C10": dict(
-        technique="explicit-state breadth-first search over operation histories (listings through 4 protocols, directory mutations, virtual-clock advances) on the implementation, checked step by step against an explicit cache model with a caching-off twin server as reference",
+        technique="explicit-state breadth-first search over operation histories (listings through 4 protocols, directory mutations, virtual-clock advances) on the implementation, checked step by step against an explicit cache model with a caching-off twin server as reference; a fully enumerated set of real-time situations on a real deployment",
         text="All histories over the operation menu up to the depth bound (states de-duplicated on directory contents, unpickled cache entries, capped cache age and model snapshot) are replayed on a fresh world under a virtual clock; "
              "every listing must equal what the cache model predicts: the twin's fresh listing on a miss (no cache, or age >= lifetime), the listing recorded when the entry was written on a hit, whichever protocols wrote and read it; "
              "a hit must not touch the cache file, a miss must rewrite it; lifetime 0 always reflects the current directory.",
@@ -108,13 +108,13 @@ CHECKS = {
         design_ref="DESIGN.md 3/C12",
     ),
     "C20": dict(
-        technique="exhaustive fault enumeration over (response kind x write index x error class) on the real connection handler with a failing socket",
+        technique="exhaustive fault enumeration over (response kind x write index x error class) on the real connection handler with a failing socket; exhaustive enumeration of (deployment x transfer) with a real client that resets the connection midway",
         text="For 34 response kinds the clean run's write count W is measured, then for every k in 1..W+1 and each of EPIPE, ECONNRESET and a single-argument timeout the k-th and all later socket writes raise; "
              "nothing may leave handle(), the log must name the client address and the failure's own class and no other exception class, and /proc/self/fd must be unchanged afterwards.",
         design_ref="DESIGN.md 3/C20",
     ),
     "C11": dict(
-        technique="exhaustive crash-point enumeration (every prefix of every cache file written by the implementation) + preemption-bounded stateless DFS over writer||reader thread interleavings under a cooperative scheduler",
+        technique="exhaustive crash-point enumeration (every prefix of every cache file written by the implementation; every file-size limit k for the writing process; every cut with a read-only directory) + preemption-bounded stateless DFS over writer||reader thread interleavings under a cooperative scheduler",
         text="The real server writes its directory cache; the file is then replaced by each of its prefixes 0..size (and zero/0xff-filled files) and the directory requested again through the real connection handler, "
              "which must return the complete fresh listing. Same for the three files of the ZIP index cache. Concurrent writer/reader requests on one directory run under a baton scheduler with scheduling points at every "
              "cache-file stat/open/read/write-chunk/close and directory enumeration; all interleavings with <=2 (quick) / <=3 (thorough) preemptions are executed, each client must get the complete listing and the file left behind must serve the next request correctly.",
@@ -135,7 +135,7 @@ CHECKS = {
         design_ref="DESIGN.md 3/C02",
     ),
     "C03": dict(
-        technique="bounded-exhaustive enumeration of request lines (E1) + explicit-state BFS over request histories (E4) on the implementation",
+        technique="bounded-exhaustive enumeration of request lines (E1) + explicit-state BFS over request histories (E4) on the implementation; exhaustive deployment-mode x request differential against real server processes",
         text="Every request line of the bounded alphabet (wrappers x encodings x <=3-segment paths, edge selectors, raw first lines, both TLS states, both handler lists) "
              "is served by the real connection handler and its bytes validated by an independent per-protocol validator; every history of read-only requests up to the depth bound "
              "is replayed on a fresh world and the last answer compared with the answer given alone.",
@@ -181,7 +181,7 @@ def main():
             "name": "pgmc",
             "path": "/verif/pgmc",
             "serves_properties": sorted(CHECKS),
-            "kind_free_text": "hand-written explicit-state / stateless explorers (bounded-exhaustive enumeration, deviation-bounded DFS over environment answers, preemption-bounded cooperative scheduler, BFS over histories) driving the real implementation",
+            "kind_free_text": "hand-written explicit-state / stateless explorers (bounded-exhaustive enumeration, deviation-bounded DFS over environment answers, preemption-bounded cooperative scheduler, BFS over histories) driving the real implementation in process, plus exhaustively enumerated deployment modes x requests x client behaviours against real bin/pygopherd processes (pgmc/deploy.py)",
         }],
         "checks": checks,
         "not_applicable": na,
